@@ -1,6 +1,7 @@
 package harness
 
 import (
+	"bytes"
 	"os"
 	"strings"
 	"testing"
@@ -204,6 +205,135 @@ var specC14 = &worldSpec{
 
 func TestC14(t *testing.T) { runWorldSpec(t, withLevel(specC14)) }
 
+// ---------------------------------------------------------------- C08 iterator contract
+var specC08 = &worldSpec{
+	Prop: "C08",
+	Profile: &Profile{MinSteps: 15, MaxSteps: 50,
+		W:        weights(map[string]int{"iter": 40, "set": 30, "remove": 14, "save": 12, "reopen": 6, "rollback": 2, "prune": 2, "prune_refuse": 0, "lvfo": 1, "dvf": 0, "setnil": 0}),
+		Backends: []string{"mem", "mem", "prefix"}, NoInitVer: true},
+	Obs:  Observers{Light: true},
+	Rule: "tree states reached by 15-50 generated steps (committed latest with index = FastIterator, historical versions and skipFast = tree walk, working state with uncommitted additions/updates/removals = UnsavedFastIterator, empty) x (start,end) drawn from {nil, empty non-nil, stored/overlay/disk-only keys, predecessors/successors, prefixes, extensions, equal, inverted, outside} x {asc,desc} x stop point; every interface (tree Iterator through Valid/Key/Value/Next/Error/Close, iavl.NewIterator walk, IterateRange, IterateRangeInclusive, Iterate with a stopping callback) must yield exactly sorted(model) ∩ [start,end) (<= end inclusive), each once, in order, then stay invalid; non-trivial = a range query whose bound coincides with a stored/overlay key or splits the key set, with a result neither empty nor everything",
+	Nontrivial: func(w *World) bool { return w.Cnt["iter_nontrivial"] > 0 },
+	Known:      knownCommon,
+}
+
+func TestC08(t *testing.T) { runWorldSpec(t, withLevel(specC08)) }
+
+// ---------------------------------------------------------------- C09 rollback erases the future (twin)
+func specC09() *worldSpec {
+	return &worldSpec{
+		Prop: "C09",
+		Profile: &Profile{MinSteps: 20, MaxSteps: 60,
+			W:        weights(map[string]int{"lvfo": 8, "dvf": 5, "rollback": 6, "reopen": 5, "prune": 5, "setnil": 0, "save": 22}),
+			Backends: []string{"mem", "mem", "prefix"}},
+		Obs:  Observers{Reads: true, Hash: true, Fast: true},
+		Rule: "history of 20-60 steps with rollbacks to any retained version by LoadVersionForOverwriting or DeleteVersionsFrom + (same|fresh handle) LoadVersion, repeated / nested / after pruning, followed by further writes, commits, prunes, reopens; a twin tree on a fresh store executes only the surviving history and after every step both are compared: all reads and hashes against the model, AvailableVersions, WorkingHash, and the raw stores entry by entry (node entries byte-identical, fast entries same keys and values, label equal). Rollback() alone: all read paths (walk, fast, iterators) and WorkingHash equal the last committed version. non-trivial = the erased future contained >=1 commit that wrote nodes, a later commit re-used an erased version number, and the node cache was on (cache>0) at the rollback",
+		Nontrivial: func(w *World) bool {
+			return w.Labels["erased_writing_commit"] && w.Labels["reused_erased_version"] && w.Labels["rollback_with_cache"]
+		},
+		Known: knownCommon,
+	}
+}
+
+func TestC09(t *testing.T) {
+	base := specC09()
+	worldSpecs["C09"] = c09Instance(base)
+	rapid.Check(t, func(rt *rapid.T) { runWorldCase(rt, c09Instance(withLevel(base))) })
+}
+
+// c09Instance binds a fresh twin to one case.
+func c09Instance(base *worldSpec) *worldSpec {
+	s := *base
+	var ts *twinState
+	var prevLatest int64
+	var erasedTop int64
+	var lastWriting = map[int64]bool{}
+	s.After = func(w *World, op Op) *Violation {
+		if ts == nil {
+			ts = w.twinInit()
+		}
+		if op.Kind == "save" {
+			lastWriting[w.Latest] = w.Cnt["writing_commits"] > w.Cnt["prev_writing_commits"]
+			w.Cnt["prev_writing_commits"] = w.Cnt["writing_commits"]
+			if w.Latest <= erasedTop {
+				w.Labels["reused_erased_version"] = true
+			}
+		}
+		if (op.Kind == "lvfo" || op.Kind == "dvf") && op.N < prevLatest {
+			for v := op.N + 1; v <= prevLatest; v++ {
+				if lastWriting[v] {
+					w.Labels["erased_writing_commit"] = true
+				}
+			}
+			if prevLatest > erasedTop {
+				erasedTop = prevLatest
+			}
+			if w.Cfg.Cache > 0 {
+				w.Labels["rollback_with_cache"] = true
+			}
+		}
+		v := ts.After(w, op, prevLatest)
+		prevLatest = w.Latest
+		return v
+	}
+	s.End = func(t *rapid.T, w *World) *Violation {
+		if ts != nil && ts.twin != nil {
+			ts.twin.Close()
+		}
+		return nil
+	}
+	return &s
+}
+
+// ---------------------------------------------------------------- C15 change sets
+var specC15 = &worldSpec{
+	Prop: "C15",
+	Profile: &Profile{MinSteps: 12, MaxSteps: 45, NormalFormOneIn: 3,
+		W:        weights(map[string]int{"set": 30, "remove": 18, "save": 20, "prune": 3, "prune_refuse": 0, "lvfo": 2, "dvf": 1, "reopen": 3, "setnil": 0, "rollback": 2}),
+		Backends: []string{"mem"}},
+	Obs:  Observers{Light: true},
+	Rule: "history of 12-45 steps with repeated writes/removals of one key inside a version, set-then-remove, remove-then-set, identical rewrites, no-op and empty versions, pruning before the requested range; after every commit and at the end TraverseStateChanges is called for drawn (start,end) ranges and for every version whose predecessor is retained (or which is the first version ever) the delivered set must equal, in ascending key order and once per key, {(k,value_v(k)) : k written in v and present in v} U {delete k : k in v-1 minus v}; at the end all sets are replayed through SaveChangeSet into an empty tree (one new version each, contents equal, reference hashes whenever every version so far was written in normal form - a third of the cases are generated that way; removal of a missing key must be rejected). non-trivial = some version with a key touched >=2 times or a cancelled write, and >=2 change sets checked",
+	Nontrivial: func(w *World) bool {
+		return (w.Labels["cancelled_write"] || w.Labels["key_touched_twice"]) && w.Cnt["changesets_checked"] >= 2
+	},
+	Known: knownCommon,
+	After: func(w *World, op Op) *Violation {
+		if op.Kind == "set" || op.Kind == "remove" {
+			n := 0
+			for _, o := range w.WOps {
+				if bytes.Equal(o.K, op.K) {
+					n++
+				}
+			}
+			if n >= 2 {
+				w.Labels["key_touched_twice"] = true
+			}
+		}
+		if op.Kind == "save" && w.Latest > 0 {
+			return w.checkChangeSetRange(w.Latest, w.Latest)
+		}
+		return nil
+	},
+	End: func(t *rapid.T, w *World) *Violation {
+		if w.Latest == 0 {
+			return nil
+		}
+		for i := 0; i < 3; i++ {
+			s := rapid.Int64Range(0, w.Latest+1).Draw(t, "csStart")
+			e := rapid.Int64Range(0, w.Latest+2).Draw(t, "csEnd")
+			if v := w.checkChangeSetRange(s, e); v != nil {
+				return v
+			}
+		}
+		if v := w.checkChangeSetRange(1, 1<<62); v != nil {
+			return v
+		}
+		return w.checkChangeSetReplay()
+	},
+}
+
+func TestC15(t *testing.T) { runWorldSpec(t, withLevel(specC15)) }
+
 func mergeW(a, b map[string]int) map[string]int {
 	m := map[string]int{}
 	for k, v := range a {
@@ -223,7 +353,7 @@ func withLevel(s *worldSpec) *worldSpec {
 	return &c
 }
 
-var allSpecs = []*worldSpec{specC01, specC02, specC03, specC04, specC07, specC12, specC13, specC14}
+var allSpecs = []*worldSpec{specC01, specC02, specC03, specC04, specC07, specC12, specC13, specC14, specC08, specC15}
 
 func registerAllSpecs() {
 	for _, s := range allSpecs {
